@@ -12,9 +12,11 @@ independent of which runs a pool worker executed before (determinism) and makes 
 from __future__ import annotations
 
 import copy
+import hashlib
 import importlib
 import inspect
 import pkgutil
+import re
 import types
 
 import numpy as np
@@ -140,6 +142,50 @@ def restore():
                 setattr(mod, name, val)
             except Exception:  # noqa: BLE001
                 pass
+
+
+    _apply_knobs(snap)
+
+
+# ---- tuning knobs ------------------------------------------------------------------------------------------------
+# Module-level integer constants that look like block / chunk / batch sizes are part of the simulated configuration: a
+# result must not depend on them, so the simulator shrinks them per run (a block size of 2**17 hides the multi-block
+# path from every workload of realistic size).  Only names that say "this is a chunking parameter" are touched.
+_KNOB_NAME = re.compile(r"(BLOCK|CHUNK|BATCH)", re.IGNORECASE)
+_KNOB_SEED = None
+_KNOB_VALUES = (1, 2, 3, 5, 7, 11, 16)
+
+
+def knobs(snap=None):
+    snap = snap or snapshot()
+    return [(mod, name, val) for mod, name, val in snap["scalars"] if isinstance(val, int) and not isinstance(val, bool) and val >= 8 and _KNOB_NAME.search(name)]
+
+
+def set_knob_seed(seed):
+    """Knob values for the runs from now on are a pure function of `seed` (None = the shipped values); applied by restore()."""
+    global _KNOB_SEED
+    _KNOB_SEED = seed
+    return [f"{mod.__name__}.{name}={new}" for mod, name, new in _knob_plan(snapshot())]
+
+
+def _knob_plan(snap):
+    if _KNOB_SEED is None:
+        return []
+    plan = []
+    for mod, name, val in knobs(snap):
+        h = int.from_bytes(hashlib.sha256(f"knob:{_KNOB_SEED}:{mod.__name__}:{name}".encode()).digest()[:8], "big")
+        if h % 4 == 0:
+            continue  # a quarter of the runs keep the shipped value
+        plan.append((mod, name, _KNOB_VALUES[(h // 4) % len(_KNOB_VALUES)]))
+    return plan
+
+
+def _apply_knobs(snap):
+    for mod, name, new in _knob_plan(snap):
+        try:
+            setattr(mod, name, new)
+        except Exception:  # noqa: BLE001
+            pass
 
 
 def describe():
